@@ -4,7 +4,7 @@ import json
 
 from hypothesis import strategies as st
 
-from vf.core.runner import Violation
+from vf.core.runner import Violation, known_or_raise
 from vf.model import jsonmodel as JM
 from vf.model.rnd import urandoms
 
@@ -226,8 +226,12 @@ def check(case):
         labels.append("array-multi-op")
     sta, out = _call(jsontools.apply_patch, json.dumps(old).encode(), json.dumps(patch).encode())
     if sta == "raise":
-        raise Violation("patch-does-not-apply", f"the patch made for (old,new) cannot be applied to old: {out}", dict(det, array_ops=bool(by_arr)))
-    if json.loads(out) != new:
+        # diagnosis for the recorded finding: the third-party jsonpatch library emits a 'move' to index -1 of an empty array when a key
+        # containing '/' collides with a nested path of the same spelling ('a/b' next to a -> b)
+        det2 = dict(det, array_ops=bool(by_arr), lib_move_to_minus_one=any(o.get("op") == "move" and o["path"].endswith("/-1") for o in patch))
+        labels.append(known_or_raise(PID, Violation("patch-does-not-apply", f"the patch made for (old,new) cannot be applied to old: {out}", det2)))
+        out = None
+    if out is not None and json.loads(out) != new:
         raise Violation("patch-wrong-result", f"applying the patch to old gives {json.loads(out)!r}, not new {new!r}"[:600], dict(det, array_ops=bool(by_arr)))
     # ---- (3) filters return parts of the document
     d = old
